@@ -89,11 +89,17 @@ static void onMessage(const TcpConnectionPtr&, Buffer* b, Timestamp) {
 }
 // the user's write-complete / high-water-mark callbacks carry an identity (which std::function object this is):
 // `setwc <id>` / `sethwm <id> <mark>` install callback <id> (0 = an empty std::function), the output says which one ran
-static void onWriteComplete(int id, const TcpConnectionPtr&) {
-  char line[64]; snprintf(line, sizeof line, "cb WC %d", id); emitLine(line); runHook("wc");
+// (a user callback dereferences its connection argument: an empty pointer there is a crash in a real program; the
+// harness says so instead of crashing, so that the step is still reported)
+static void onWriteComplete(int id, const TcpConnectionPtr& c) {
+  char line[64]; snprintf(line, sizeof line, "cb WC %d", id); emitLine(line);
+  if (!c) emitLine("uaf write-complete callback invoked with an empty TcpConnectionPtr");
+  runHook("wc");
 }
-static void onHighWater(int id, const TcpConnectionPtr&, size_t n) {
-  char line[64]; snprintf(line, sizeof line, "cb HWM %d %zu", id, n); emitLine(line); runHook("hwm");
+static void onHighWater(int id, const TcpConnectionPtr& c, size_t n) {
+  char line[64]; snprintf(line, sizeof line, "cb HWM %d %zu", id, n); emitLine(line);
+  if (!c) emitLine("uaf high-water-mark callback invoked with an empty TcpConnectionPtr");
+  runHook("hwm");
 }
 static WriteCompleteCallback wcOf(int id) {
   return id ? WriteCompleteCallback(std::bind(&onWriteComplete, id, std::placeholders::_1)) : WriteCompleteCallback();
